@@ -80,7 +80,7 @@
     macro_rules! visitor_harness {
         ($name:ident, $body:block) => {
             #[kani::proof]
-            #[kani::unwind(5)]
+            #[kani::unwind(9)]
             #[kani::stub(std::hash::RandomState::new, fixed_random_state)]
             #[kani::stub(AssignmentTracker::is_assigned, is_assigned_stub)]
             #[kani::stub(AssignmentTracker::assign, assign_stub)]
@@ -120,10 +120,9 @@
         };
     }
 
-    // Measured (12 harnesses in parallel): quick-tier obligations take 55-145 s; with / if / autoescape+filter-block
-    // 210-430 s (thorough tier); test, call, call-argument kinds, set-block, for, call-block time out at 600 s and list/
-    // tuple/map, block, macro, import need a larger unwinding bound than was measured: those ten are role=disabled (kept as
-    // text, not claimed) and are covered only by undeclared_native.
+    // Measured on an idle machine with unwind(9): 18 obligations take 2-32 s each (quick tier); test, call, set-block,
+    // for and call-block do not finish in 2400 s and are role=disabled (kept as text, not claimed; covered only by
+    // undeclared_native). (A first measurement under heavy machine load had suggested 10x these times.)
     // ---- expressions: every child expression is visited
 //# ob name=expr_var fn=compiler::meta::tracker_visit_expr kind=bounded plumbing=true fallback=undeclared_native bound="one Var" stmt="an unassigned variable is reported; an assigned one is not"
     visitor_harness!(expr_var, {
@@ -145,7 +144,7 @@
 //# ob name=expr_getitem fn=compiler::meta::tracker_visit_expr kind=bounded plumbing=true fallback=undeclared_native bound="depth 1" stmt="GetItem visits base and subscript"
 //# ob name=expr_slice fn=compiler::meta::tracker_visit_expr kind=bounded plumbing=true fallback=undeclared_native bound="depth 1" stmt="Slice visits the sliced expression and start, stop, step"
 //# ob name=expr_call role=disabled fn=compiler::meta::tracker_visit_expr kind=bounded plumbing=true fallback=undeclared_native bound="depth 1" stmt="Call visits the callee and every argument"
-//# ob name=expr_list_tuple_map role=disabled fn=compiler::meta::tracker_visit_expr kind=bounded plumbing=true fallback=undeclared_native bound="depth 1, 2 items" stmt="List, Tuple and Map visit every item, key and value"
+//# ob name=expr_list_tuple_map fn=compiler::meta::tracker_visit_expr kind=bounded plumbing=true fallback=undeclared_native bound="depth 1, 2 items" stmt="List, Tuple and Map visit every item, key and value"
     expr_children!(expr_unaryop, ast::Expr::UnaryOp(sp(ast::UnaryOp { op: ast::UnaryOpKind::Not, expr: var("a") })), ["a"]);
     expr_children!(expr_binop, ast::Expr::BinOp(sp(ast::BinOp { op: ast::BinOpKind::Add, left: var("a"), right: var("b") })), ["a", "b"]);
     expr_children!(expr_compare, ast::Expr::Compare(sp(ast::Compare { expr: var("a"), ops: vec![ast::CompareOp { op: ast::CompareOpKind::Lt, expr: var("b") }, ast::CompareOp { op: ast::CompareOpKind::Lt, expr: var("c") }] })), ["a", "b", "c"]);
@@ -170,15 +169,15 @@
     // and scopes are balanced
 //# ob name=stmt_emit fn=compiler::meta::track_walk kind=bounded plumbing=true fallback=undeclared_native bound="depth 1" stmt="EmitExpr visits its expression"
 //# ob name=stmt_set_reads_rhs_first fn=compiler::meta::track_walk kind=bounded plumbing=true fallback=undeclared_native bound="{% set x = x %}" stmt="Set: the right-hand side is read before the target is assigned, so `{% set x = x + 1 %}` reports x"
-//# ob name=stmt_with_reads_rhs_first fn=compiler::meta::track_walk kind=bounded tier=thorough plumbing=true fallback=undeclared_native bound="{% with y = y %}{{ y }}{% endwith %}" stmt="WithBlock: each right-hand side is read before its target is bound; the binding does not leak after the block"
+//# ob name=stmt_with_reads_rhs_first fn=compiler::meta::track_walk kind=bounded plumbing=true fallback=undeclared_native bound="{% with y = y %}{{ y }}{% endwith %}" stmt="WithBlock: each right-hand side is read before its target is bound; the binding does not leak after the block"
 //# ob name=stmt_setblock_body_first role=disabled fn=compiler::meta::track_walk kind=bounded plumbing=true fallback=undeclared_native bound="{% set x %}{{ x }}{% endset %}" stmt="SetBlock: the body is evaluated before the target is assigned, so a read of the target inside the body is reported"
 //# ob name=stmt_for role=disabled fn=compiler::meta::track_walk kind=bounded plumbing=true fallback=undeclared_native bound="{% for t in it if f %}{{ t }}{{ b }}{% else %}{{ e }}{% endfor %}{{ t }}" stmt="ForLoop: iterable, filter, body and else are visited; the loop target is bound inside the body only: a read of it after the loop is reported, a read inside is not"
-//# ob name=stmt_if fn=compiler::meta::track_walk kind=bounded tier=thorough plumbing=true fallback=undeclared_native bound="{% if c %}{% set a = 1 %}{% else %}{{ e }}{% endif %}{{ a }}" stmt="IfCond: condition and both branches are visited; an assignment inside a branch does not hide a later read"
-//# ob name=stmt_autoescape_filterblock fn=compiler::meta::track_walk kind=bounded tier=thorough plumbing=true fallback=undeclared_native bound="depth 1" stmt="AutoEscape and FilterBlock visit their bodies with balanced scopes"
-//# ob name=stmt_block role=disabled fn=compiler::meta::track_walk kind=bounded plumbing=true fallback=undeclared_native bound="depth 1" stmt="Block visits its body; `super` is bound inside only"
-//# ob name=stmt_macro role=disabled fn=compiler::meta::track_walk kind=bounded plumbing=true fallback=undeclared_native bound="{% macro m(p, q=d) %}{{ p }}{{ g }}{% endmacro %}{{ p }}" stmt="Macro: defaults and body are visited, parameters are bound inside the macro only, the macro name is bound afterwards"
+//# ob name=stmt_if fn=compiler::meta::track_walk kind=bounded plumbing=true fallback=undeclared_native bound="{% if c %}{% set a = 1 %}{% else %}{{ e }}{% endif %}{{ a }}" stmt="IfCond: condition and both branches are visited; an assignment inside a branch does not hide a later read"
+//# ob name=stmt_autoescape_filterblock fn=compiler::meta::track_walk kind=bounded plumbing=true fallback=undeclared_native bound="depth 1" stmt="AutoEscape and FilterBlock visit their bodies with balanced scopes"
+//# ob name=stmt_block fn=compiler::meta::track_walk kind=bounded plumbing=true fallback=undeclared_native bound="depth 1" stmt="Block visits its body; `super` is bound inside only"
+//# ob name=stmt_macro fn=compiler::meta::track_walk kind=bounded plumbing=true fallback=undeclared_native bound="{% macro m(p, q=d) %}{{ p }}{{ g }}{% endmacro %}{{ p }}" stmt="Macro: defaults and body are visited, parameters are bound inside the macro only, the macro name is bound afterwards"
 //# ob name=stmt_callblock_do role=disabled fn=compiler::meta::track_walk kind=bounded plumbing=true fallback=undeclared_native bound="depth 1" stmt="CallBlock and Do visit the callee, every argument and (CallBlock) the body"
-//# ob name=stmt_import role=disabled fn=compiler::meta::track_walk kind=bounded plumbing=true fallback=undeclared_native bound="import as / from import with and without alias" stmt="Import and FromImport bind exactly the alias names"
+//# ob name=stmt_import fn=compiler::meta::track_walk kind=bounded plumbing=true fallback=undeclared_native bound="import as / from import with and without alias" stmt="Import and FromImport bind exactly the alias names"
     stmt_reads!(stmt_emit, emit("a"), reads ["a"], not_reported []);
     stmt_reads!(stmt_set_reads_rhs_first, set("x", var("x")), reads ["x"], not_reported []);
     stmt_reads!(stmt_with_reads_rhs_first,
